@@ -171,7 +171,7 @@ def run_shard(ctx, p):
 
     for fi_no in range(p['files']):
         rng = ctx.sub_rng('file', fi_no)
-        data, fm = lis.random_file(rng)
+        data, fm = lis.random_file(rng, concurrent_p=0.12)
         digest = hashlib.blake2b(data, digest_size=8).hexdigest()
         rec.add('files')
         rec.add('file_bytes', len(data))
